@@ -248,13 +248,46 @@ theorem mulArr_translate [Mul K] (a b : Fld K) (d0 d1 : Int) :
   · simp only [h, if_true, Option.map_some]; rfl
   · simp only [h, Bool.false_eq_true, if_false, Option.map_none]
 
+/-! ### closed form of `Fld.mul` under the current generated dispatch tests -/
+
+theorem Fld.size_eq_one_iff (f : Fld K) : f.size = 1 ↔ f.arr.s0 = 1 ∧ f.arr.s1 = 1 := by
+  unfold Fld.size
+  constructor
+  · intro h
+    have h' : f.arr.s0.toNat * f.arr.s1.toNat = 1 := by exact_mod_cast h
+    have h1 := Nat.eq_one_of_mul_eq_one_right h'
+    have h2 := Nat.eq_one_of_mul_eq_one_left h'
+    omega
+  · rintro ⟨h1, h2⟩; rw [h1, h2]; rfl
+
+theorem Fld.mulBothOne_eq (a b : Fld K) : Gen.mulBothOne a.size b.size = (a.size1 && b.size1) := by
+  simp only [Gen.mulBothOne, Fld.size1]
+  rw [Bool.eq_iff_iff]
+  simp only [Bool.and_eq_true, decide_eq_true_eq, Fld.size_eq_one_iff]
+
+/-- `Fld.mul` with the generated tests evaluated: both one-element ⇒ `_mul_scalar` (offsets equal exactly, in both
+components), else broadcast and `_mul_array`. Breaks when `Field.__mul__`'s size test or `_mul_scalar`'s comparison change. -/
+theorem Fld.mul_closed [Mul K] (a b : Fld K) :
+    a.mul b =
+      if a.size1 && b.size1 then
+        if decide (a.o0 = b.o0) && decide (a.o1 = b.o1) then
+          some { arr := { s0 := 1, s1 := 1, get := fun _ _ => a.arr.get 0 0 * b.arr.get 0 0 }, o0 := a.o0, o1 := a.o1 }
+        else none
+      else
+        let a' := if a.size1 then a.broadcastTo b else a
+        let b' := if b.size1 then b.broadcastTo a' else b
+        a'.mulArr b' := by
+  unfold Fld.mul
+  rw [Fld.mulBothOne_eq]
+  rfl
+
 /-- (definitional: restates the first branch of `Fld.mul`) two one-element fields: the documented rule — the constants multiply when the offsets agree, and the product is
 empty otherwise -/
 theorem Fld.mul_scalar_scalar [Mul K] (a b : Fld K) (hab : (a.size1 && b.size1) = true) :
     a.mul b = if a.o0 = b.o0 ∧ a.o1 = b.o1
       then some { arr := { s0 := 1, s1 := 1, get := fun _ _ => a.arr.get 0 0 * b.arr.get 0 0 }, o0 := a.o0, o1 := a.o1 }
       else none := by
-  unfold Fld.mul
+  rw [Fld.mul_closed]
   simp only [hab, if_true]
   by_cases h : a.o0 = b.o0 ∧ a.o1 = b.o1
   · simp [h]
